@@ -45,6 +45,17 @@ use redo::{
 };
 
 fn main() {
+    #[cfg(feature = "verif-hooks")]
+    {
+        redo::verif::install_panic_hook();
+        redo::verif::point(
+            "start",
+            &env::args_os()
+                .map(|a| a.to_string_lossy().into_owned())
+                .collect::<Vec<String>>()
+                .join(" "),
+        );
+    }
     let exit_code = {
         let name = env::args_os()
             .nth(0)
@@ -96,6 +107,8 @@ fn main() {
             }
         }
     };
+    #[cfg(feature = "verif-hooks")]
+    redo::verif::point("exit", &exit_code.to_string());
     std::process::exit(exit_code);
 }
 
